@@ -76,7 +76,12 @@ pub struct Setup {
     /// user-dual nodes are re-expressed on ONE shared variable list (same Arc, zero padding)
     #[serde(default)]
     pub share_vars: bool,
+    /// the curve's calendar (irrelevant to look-ups): index into CURVE_CALS
+    #[serde(default)]
+    pub cal: u8,
 }
+
+pub const CURVE_CALS: &[&str] = &["all", "bus", "tgt", "nyc,ldn|fed"];
 
 pub fn convention_of(i: u8) -> Convention {
     const C: [Convention; 11] = [
@@ -405,6 +410,7 @@ pub fn generate_with(rng: &mut Rng, tier: Tier, allow_null: bool) -> Plan {
             convention: rng.below(11) as u8,
             modifier: rng.below(5) as u8,
             share_vars: rng.chance(0.25),
+            cal: if rng.chance(0.5) { 0 } else { rng.below(4) as u8 },
         },
         history: History::Exhaustive { depth },
         query_ns: if subsecond_queries {
@@ -608,7 +614,8 @@ pub fn build_with_cal(setup: &Setup, pycal: Option<CalType>) -> Result<Sut, Fail
             let cal = match pycal {
                 Some(c) => c,
                 None => CalType::NamedCal(
-                    NamedCal::try_new("all").map_err(|_| herr("NamedCal all refused"))?,
+                    NamedCal::try_new(CURVE_CALS[setup.cal as usize % CURVE_CALS.len()])
+                        .map_err(|_| herr("NamedCal refused"))?,
                 ),
             };
             let c = call(P, "Curve::new", || {
@@ -675,7 +682,8 @@ pub fn build_with_cal(setup: &Setup, pycal: Option<CalType>) -> Result<Sut, Fail
                     Nodes::Dual2(m)
                 }
             };
-            let cal = NamedCal::try_new("all").map_err(|_| herr("NamedCal all refused"))?;
+            let cal = NamedCal::try_new(CURVE_CALS[setup.cal as usize % CURVE_CALS.len()])
+                .map_err(|_| herr("NamedCal refused"))?;
             let ib = setup.index_base.map(|b| b.get());
             macro_rules! mk {
                 ($Variant:ident, $I:ident) => {{
@@ -1770,6 +1778,7 @@ fn big_curve(n: usize, salt: u64) -> Plan {
             convention: 0,
             modifier: 0,
             share_vars: false,
+            cal: 0,
         },
         history: History::Sequence(vec![1, 0, 2, 1]),
         queries,
